@@ -23,6 +23,7 @@ fn main() {
         "val" => { valmode::run(&a); return }
         "c19" => { valmode::run_c19(&a); return }
         "c18v" => { valmode::run_c18v(&a); return }
+        "c07e" => { valmode::run_c07e(&a); return }
         "c14t" => { trackmode::run(&a); return }
         "c20" => { valmode::run_c20(&a); return }
         "tables" => { valmode::dump_tables(&a.out); return }
